@@ -218,7 +218,8 @@ func execPlan(t *testing.T, pa any) (out core.Outcome) {
 		}
 		opReturned = true
 		st := tr.Totals()
-		logf("%s -> %v (conns %d, bytes %d, segments %d, split writes %d, short reads %d, blocked %d, cut %v)", cfgName, errStr(opErr), len(tr.Streams)/2, st.Bytes, st.Segments, st.SplitWrites, st.ShortReads, st.Blocked, st.Cut)
+		// (how often a writer had to wait for room depends on goroutine timing and stays out of the event log)
+		logf("%s -> %v (conns %d, bytes %d, segments %d, split writes %d, short reads %d, cut %v)", cfgName, errStr(opErr), len(tr.Streams)/2, st.Bytes, st.Segments, st.SplitWrites, st.ShortReads, st.Cut)
 		out.ProbeN("split-writes", st.SplitWrites)
 		out.ProbeN("short-reads", st.ShortReads)
 		out.ProbeN("writer-blocked-on-full-buffer", st.Blocked)
